@@ -98,8 +98,10 @@ Fixpoint final (m : smap) (S : list (op * ret)) : smap :=
 Inductive tst : Type :=
 | TIdle
 | TInv (o : op)                                   (* invoked, nothing executed yet *)
-| TFn (k v : nat)                                 (* LoadOrStoreFn: the Load missed, f() returned v *)
+| TMiss (k v : nat)                               (* LoadOrStoreFn: the Load missed, f not yet entered *)
+| TFn (k v : nat)                                 (* LoadOrStoreFn: f() entered (it will return v) *)
 | TRng (must seen : list nat) (acc : smap)        (* Range: keys that must still be visited, keys visited, pairs reported *)
+| TRngCb (must seen : list nat) (acc : smap) (k v : nat)   (* Range: (k, v) loaded, callback not yet entered *)
 | TRes (o : op) (r : ret).                        (* result determined, not yet returned *)
 
 Record thread : Type := mkThread { tstate : tst; tops : list op }.
@@ -108,8 +110,9 @@ Inductive sev : Type :=
 | EInv (o : op)                   (* history event: invocation *)
 | ERes (o : op) (r : ret)         (* history event: response *)
 | ELin (o : op) (r : ret)         (* the primitive that determines the result (linearization point) *)
-| EFn (k : nat)                   (* f() was called: the Load of LoadOrStoreFn missed *)
-| EVisit (k : nat) (x : option nat)   (* Range loaded key k (Some v: the callback ran with (k, v)) *)
+| EFn (k : nat)                   (* f() entered (some time after the Load of LoadOrStoreFn missed) *)
+| EVisit (k : nat) (x : option nat)   (* Range loaded key k atomically *)
+| ECb (k v : nat)                 (* the Range callback entered with (k, v) (some time after the load) *)
 | ETau.
 
 Definition keys_of (m : smap) : list nat := map fst m.
@@ -131,11 +134,12 @@ Definition tstep (rep : bool) (ch : option nat) (m : smap) (th : thread) : optio
       | OLoadOrStoreFn k v =>
           match get m k with
           | Some x => Some (m, mkThread (TRes o (RLos x true)) (tops th), ELin o (RLos x true))
-          | None => Some (m, mkThread (TFn k v) (tops th), EFn k)
+          | None => Some (m, mkThread (TMiss k v) (tops th), ETau)
           end
       | ORange => Some (m, mkThread (TRng (keys_of m) [] []) (tops th), ETau)
       | _ => let (m', r) := spec m o in Some (m', mkThread (TRes o r) (tops th), ELin o r)
       end
+  | TMiss k v => Some (m, mkThread (TFn k v) (tops th), EFn k)
   | TFn k v =>
       if rep then
         let (m', r) := spec m (OLoadOrStore k v) in
@@ -154,10 +158,13 @@ Definition tstep (rep : bool) (ch : option nat) (m : smap) (th : thread) : optio
       | Some k =>
           if existsb (Nat.eqb k) seen then None
           else
-            let acc' := match get m k with Some v => put acc k v | None => acc end in
-            Some (m, mkThread (TRng (filter (fun k' => negb (Nat.eqb k' k)) must) (k :: seen) acc') (tops th),
-                  EVisit k (get m k))
+            let must' := filter (fun k' => negb (Nat.eqb k' k)) must in
+            match get m k with
+            | Some v => Some (m, mkThread (TRngCb must' (k :: seen) (put acc k v) k v) (tops th), EVisit k (Some v))
+            | None => Some (m, mkThread (TRng must' (k :: seen) acc) (tops th), EVisit k None)
+            end
       end
+  | TRngCb must seen acc k v => Some (m, mkThread (TRng must seen acc) (tops th), ECb k v)
   | TRes o r => Some (m, mkThread TIdle (tops th), ERes o r)
   end.
 
@@ -232,7 +239,7 @@ Definition wnext (s : wst) (e : sev) : option wst :=
   match s, e with
   | WIdle, EInv o => Some (WInv o)
   | WInv o, ELin o' r => if op_eq_dec o o' then Some (WLin o r) else None
-  | WInv o, (EFn _ | EVisit _ _ | ETau) => Some (WInv o)
+  | WInv o, (EFn _ | EVisit _ _ | ECb _ _ | ETau) => Some (WInv o)
   | WLin o r, ERes o' r' => if op_eq_dec o o' then if ret_eq_dec r r' then Some WIdle else None else None
   | WLin o r, ETau => Some (WLin o r)
   | _, _ => None
@@ -335,13 +342,13 @@ Fixpoint merge_search (fuel : nat) (m : smap) (R : list (nat * (op * ret))) : bo
       end
   end.
 
-(* (3) trace acceptor: is an observed event sequence (Inv, Res, f-called, Range callback (k,v)) the
+(* (3) trace acceptor: is an observed event sequence (Inv, Res, f entered, Range callback entered with (k,v)) the
        observable projection of a run of the step model?  Hidden steps: primitives of point operations,
-       LoadOrStoreFn hit / store, Range begin / visit of an absent key / finish. *)
+       the Load and the store of LoadOrStoreFn, Range begin / per-key load / finish.  (An observation is
+       recorded some time AFTER the primitive it reports, so the primitives are separate hidden steps.) *)
 Definition observable (e : sev) : bool :=
   match e with
-  | EInv _ => true | ERes _ _ => true | EFn _ => true
-  | EVisit _ (Some _) => true
+  | EInv _ => true | ERes _ _ => true | EFn _ => true | ECb _ _ => true
   | _ => false
   end.
 
@@ -350,14 +357,14 @@ Definition sev_eqb (a b : sev) : bool :=
   | EInv o, EInv o' => op_eqb o o'
   | ERes o r, ERes o' r' => op_eqb o o' && ret_eqb r r'
   | EFn k, EFn k' => Nat.eqb k k'
-  | EVisit k (Some v), EVisit k' (Some v') => Nat.eqb k k' && Nat.eqb v v'
+  | ECb k v, ECb k' v' => Nat.eqb k k' && Nat.eqb v v'
   | _, _ => false
   end.
 
 (* candidate choices for a hidden step of thread t (only Range uses the choice) *)
 Definition hidden_choices (c : scfg) (t : nat) : list (option nat) :=
   match tstate (sthr c t) with
-  | TRng must _ _ => None :: map Some must
+  | TRng must _ _ => None :: map Some (must ++ keys_of (sm c))
   | _ => [None]
   end.
 
@@ -369,7 +376,7 @@ Fixpoint accept_search (rep : bool) (fuel : nat) (tids : list nat) (c : scfg) (o
       if (match obs with
           | [] => forallb (fun t => match tstate (sthr c t), tops (sthr c t) with TIdle, [] => true | _, _ => false end) tids
           | (t, e) :: rest =>
-              let ch := match e with EVisit k _ => Some k | _ => None end in
+              let ch := None in
               match sstep rep c t ch with
               | Some (c', e') => if sev_eqb e e' then accept_search rep f tids c' rest else false
               | None => false
